@@ -332,6 +332,25 @@ def _marker_faults(ctx, rep, base):
         plan.exc = exc or Injected
         outcome = _run_gc(t, plan)
         _judge(rep, f"{name} ({plan.exc.__name__})", {"kind": "marker-fault", "fault": name, "error": plan.exc.__name__}, before, _files(path), outcome, reach, protected, hint)
+    # ABANDONED markers (older than the 24 h timeout) that cannot be removed: a marker still on storage keeps protecting its file
+    for exc in (None, PermissionError, TimeoutError):
+        shutil.rmtree(path)
+        shutil.copytree(snap, path, copy_function=shutil.copy2)
+        old3 = time.time() - 3 * 86400
+        for fn in os.listdir(os.path.join(path, "metadata/inflight")):
+            os.utime(os.path.join(path, "metadata/inflight", fn), (old3, old3))
+        before = _files(path)
+        plan = Plan(match=lambda m, p: m == "delete_file" and "inflight" in p, exc=exc)
+        outcome = _run_gc(t, plan)
+        after = _files(path)
+        left = {f_ for f_ in after if f_.startswith("metadata/inflight/")}
+        gone_protected = (before - after) & protected
+        rep.evaluations += 1
+        rep.nontrivial(["c07-abandoned-undeletable", (exc or Injected).__name__])
+        if gone_protected and left:
+            rep.violate("C07:protection-dropped", f"markers older than the abandonment timeout could not be deleted ({(exc or Injected).__name__}); they are still on storage, "
+                        f"yet {sorted(gone_protected)[:2]} (the files they name) were deleted (outcome {outcome})",
+                        {"kind": "marker-fault", "fault": "abandoned marker cannot be deleted", "error": (exc or Injected).__name__})
     # unparseable / field-less payloads
     for name, payload in (("marker payload garbage", b"\xff{{"), ("marker payload without file_path", b"{}"), ("marker payload empty", b"")):
         shutil.rmtree(path)
